@@ -754,6 +754,22 @@ fn drive(sim: &mut Sim, prof: &Profile, rng: &mut Rng, rep: &mut Report, ctype: 
 						rep.count("c04_expired_secret_sends");
 						SendOpts { expired: Some(if rng.chance(2, 3) { Some(*rng.pick(&[45u16, 60, 80])) } else { None }), class: "expired-secret", ..Default::default() }
 					},
+					5 | 6 | 7 if chans.len() == 2 && rng.chance(1, 3) => {
+						// what the forwarder is left with deviates from its advertised policy by one unit (or by all of it)
+						let fwd = sim.w.chans[chans[0]].peer_of(src);
+						let (fee, delta) = sim.w.forwarding_fee(fwd, chans[1], amt);
+						match rng.below(5) {
+							0 => { rep.count("c02_f1_forwards_offered_one_msat_below_the_fee"); SendOpts { skimp_fee: Some(-1), class: "underpaid-fee", ..Default::default() } },
+							1 => { rep.count("c02_f1_forwards_offered_without_a_fee"); SendOpts { skimp_fee: Some(-(fee as i64)), class: "underpaid-fee", ..Default::default() } },
+							2 => { rep.count("c02_f1_forwards_offered_one_block_below_the_delta"); SendOpts { skimp_delta: Some(-1), class: "short-delta", ..Default::default() } },
+							3 => { rep.count("c02_f1_forwards_offered_without_a_delta"); SendOpts { skimp_delta: Some(-(delta as i32)), class: "short-delta", ..Default::default() } },
+							_ => { rep.count("c02_f1_forwards_offered_above_the_policy"); SendOpts { skimp_fee: Some(1 + rng.below(1000) as i64), skimp_delta: Some(rng.below(3) as i32), class: "overpaid-forward", ..Default::default() } },
+						}
+					},
+					6 | 7 if rng.chance(1, 2) => {
+						rep.count("c04_spontaneous_payments_sent");
+						SendOpts { keysend: true, class: "keysend", ..Default::default() }
+					},
 					0 => SendOpts { secret_flip: Some(rng.below(256) as u8), class: "wrong-secret", ..Default::default() },
 					1 if other_reg.is_some() => SendOpts { secret_of_reg: other_reg, class: "foreign-secret", ..Default::default() },
 					2 => SendOpts { min_value: Some(amt + *rng.pick(&[1u64, 2, 1000, amt])), class: "underpaid", ..Default::default() },
@@ -775,7 +791,16 @@ fn drive(sim: &mut Sim, prof: &Profile, rng: &mut Rng, rep: &mut Report, ctype: 
 					let lo = sim.w.payments.len().saturating_sub(6);
 					let k = lo + rng.below((sim.w.payments.len() - lo) as u64) as usize;
 					let p = &sim.w.payments[k];
-					if p.parts.iter().all(|(cs, _)| cs.iter().all(|c| !sim.w.chans[*c].closed)) && !sim.w.nodes[p.src].persister.dead.load(Ordering::SeqCst) {
+					if rng.chance(1, 3) {
+						// the user gives the payment up: nothing more is sent for it, and once its HTLCs are resolved it
+						// must end like any other payment (PaymentFailed, or PaymentSent if a part was claimed after all)
+						let (src, id) = (p.src, p.id);
+						sim.w.note(format!("ABANDON payment#{}", k));
+						sim.w.nodes[src].mgr.abandon_payment(id);
+						sim.w.drain_taps();
+						sim.w.obs.push_back(crate::sim::Obs::Api { step: sim.w.step, node: src, call: format!("abandon_payment#{}", k), result: String::new() });
+						rep.count("c03_payments_abandoned_by_the_user");
+					} else if p.parts.iter().all(|(cs, _)| cs.iter().all(|c| !sim.w.chans[*c].closed)) && !sim.w.nodes[p.src].persister.dead.load(Ordering::SeqCst) {
 						sim.w.note(format!("DUP-SEND payment#{} again under the same id", k));
 						sim.w.dup_send(k);
 					}
